@@ -154,4 +154,4 @@ def run(ctx):
     ctx.cov["unproved"] = ["memory safety of the f2c-translated codes (Luksan, SLSQP, BOBYQA, NEWUOA, COBYLA, DIRECT), of AGS/StoGO (C++) and the absence of leaks "
                            "and undefined arithmetic are explored with sanitizers, not proved; the proved part is the work-space arithmetic listed in Props/C10.lean"]
     ctx.assumptions += ["the required length of each work-space segment (PARTITIONS in vlib/translators.py) is read off the algorithm's use of it by hand"]
-    return ctx.finish(level="other", extra_cov={"rule": "a case = one sanitizer run; distinct by spec"})
+    return ctx.finish(level="other", explanation="PARTIAL: Lean theorems (regenerated from the malloc / partition source text) prove that every work-space segment of MMA, CCSA, ISRES, Subplex, AUGLAG and PRAXIS fits its allocation for every n, m, population, plus the row/point index arithmetic of the population methods; memory safety of the numeric cores, leaks and undefined arithmetic are NOT proved but explored by AddressSanitizer+UBSan+LeakSanitizer runs of every algorithm with NaN/Inf/huge injections (sampling, not proof).", extra_cov={"rule": "a case = one sanitizer run; distinct by spec"})
